@@ -59,7 +59,10 @@ logistic link), and a scoring step that leaves `β` unchanged in floating point.
 in `Rounding7.scoringStep_system`,
 
   `|S(β)[a]| ≤ γ₁·Σ_b (|(XᵀŴX + α_e·I)[a,b]| + |E[a,b]|)·|β_b| + |e[a]|
-              + Σᵢ |X[i,a]|·|wᵢ|·(muErr(η̂ᵢ, ηᵢ) + γ₄·|yᵢ − μ̂ᵢ|)`. -/
+              + Σᵢ |X[i,a]|·|wᵢ|·(muErr(η̂ᵢ, ηᵢ) + γ₄·|yᵢ − μ̂ᵢ|)`. 
+Stated for `p ≥ 2` coefficients (`hp`); `p = 1` is not covered.  PROVISO on `hv` for the log link: in this
+idealised model the computed `exp` is never `0`; in binary64 `exp(η̂)` underflows to `0` for `η̂ < −745.13`, where
+the hypothesis must be checked.  `Examples3` below runs the theorem with `u = 1/100` on an absorbed step `δ̂ ≠ 0`. -/
 theorem fixed_point_exact_score (f : Family) (hf : Canonical f) (x y w coef eta : List (Fl M))
     (off : Option (List (Fl M))) (alpha : Fl M) (n p : Nat)
     (hn : 0 < n) (hp : 2 ≤ p) (hx : x.length = n * p) (hy : y.length = n) (hw : w.length = n)
@@ -570,6 +573,46 @@ example : (varF Family.poisson (invLinkF Family.poisson (⟨-700⟩ : Fl Minf)))
   varF_ne_zero Family.poisson (Or.inr (Or.inl rfl)) _
 
 end Cv.Rounding8.Examples2
+
+namespace Cv.Rounding8.Examples3
+open Cv Cv.FlModel Cv.LA Cv.LA.Lu Cv.Rounding Cv.FactorRounding Cv.RoundingLU Cv.Rounding3 Cv.Rounding6
+  Cv.Rounding7 Cv.Glm Finset
+open Cv.RoundingLU.Examples (Minf Minf_u)
+open Cv.Rounding7.Examples3
+
+noncomputable local instance : ExpLnStd Minf := ExpLnStd.ofRnd Minf
+
+theorem mapsI : muI.map (invLinkF Family.gaussian) = muI ∧
+    (muI.map (invLinkF Family.gaussian)).map (varF Family.gaussian) = oI := by
+  constructor
+  · show muI.map (fun η => η) = muI
+    simp
+  · rfl
+
+theorem stepI' : scoringStep solveSqrt Xi yI wI (⟨0⟩ : Fl Minf) 2 bI (muI.map (invLinkF Family.gaussian))
+    ((muI.map (invLinkF Family.gaussian)).map (varF Family.gaussian))
+    ((muI.map (invLinkF Family.gaussian)).map (varF Family.gaussian)) = some (sI, bI) := by
+  rw [mapsI.2, mapsI.1]; exact stepI
+
+theorem hdI' : LuPivotsOk Xi yI wI bI (muI.map (invLinkF Family.gaussian))
+    ((muI.map (invLinkF Family.gaussian)).map (varF Family.gaussian))
+    ((muI.map (invLinkF Family.gaussian)).map (varF Family.gaussian)) (⟨0⟩ : Fl Minf) 2 := by
+  rw [mapsI.2, mapsI.1]; exact hdI
+
+/-- **`fixed_point_exact_score` with `u = 1/100 > 0` and a nonzero absorbed step**: the Gaussian family on the
+identity design, `β = (101, 202)`, `η̂ = muI` the COMPUTED linear predictor at `β` (`Rounding7.Examples3.etaIv`),
+the scoring step `δ̂ = (1, 2) ≠ 0` leaves `β` unchanged (`stepI`); every hypothesis holds, so the whole conclusion
+holds for this run -/
+example := fixed_point_exact_score Family.gaussian (Or.inl rfl) Xi yI wI bI muI none (⟨0⟩ : Fl Minf) 2 2
+  (by norm_num) (le_refl 2) rfl rfl rfl rfl rfl (by intro i hi; simp [varF]) sI stepI'
+  (by rw [Minf_u]; norm_num) (by rw [Minf_u]; norm_num)
+  (by show ((1 : Nat) : ℝ) * Minf.u < 1; rw [Minf_u]; norm_num) hdI'
+
+/-- and the exact score at that float-converged `β` is NOT zero (so the bound is not a bound on `0`) -/
+example : scoreExact Family.gaussian Xi yI wI bI 2 2 none (alphaEff (⟨0⟩ : Fl Minf)) 0 ≠ 0 := by
+  norm_num [scoreExact, etaExact, xv, muF, offv, Finset.sum_range_succ, alphaEff]
+
+end Cv.Rounding8.Examples3
 
 namespace Cv.Rounding8.LMrun.Examples
 open Cv Cv.Opt Cv.C10 Cv.C10D Cv.Rounding7.LM Finset
